@@ -205,14 +205,28 @@ def eval_case(c):
             qn = 'P' if how.endswith('_P') else ('n' if how.endswith('_n') else 'a')
             new_ = {'P': P, 'n': n, 'a': a}[qn]
             key_ = (wi, qn)
-            if key_ in buffers:
-                buffers[key_][...] = new_
-                reused = True
-            else:
+            if key_ not in buffers:
                 buffers[key_] = np.array(new_, dtype=float)
-            if qn == 'P': P = buffers[key_]
-            elif qn == 'n': n = buffers[key_]
-            else: a = buffers[key_]
+            buf_ = buffers[key_]
+            # first pass the work array with other values through the same entry point, then overwrite it in place with this step's values
+            buf_[...] = np.asarray(new_) * float(rng.uniform(1.3, 2.5))
+            try:
+                if how in ('orb_state_P', 'orb_state_e_P'): orb.set_state(sig, orbital_period=buf_)
+                elif how == 'orb_state_n': orb.set_state(sig, orbital_frequency=buf_)
+                elif how == 'orb_state_a': orb.set_state(sig, semi_major_axis=buf_)
+                elif how == 'orb_set_P': orb.set_orbital_period(sig, buf_)
+                elif how == 'orb_set_n': orb.set_orbital_frequency(sig, buf_)
+                elif how == 'orb_set_a': orb.set_semi_major_axis(sig, buf_)
+                elif how == 'world_state_P': w.set_state(orbital_period=buf_)
+                elif how == 'world_state_n': w.set_state(orbital_frequency=buf_)
+                elif how == 'world_state_a': w.set_state(semi_major_axis=buf_)
+            except Exception:
+                pass
+            buf_[...] = new_
+            reused = True
+            if qn == 'P': P = buf_
+            elif qn == 'n': n = buf_
+            else: a = buf_
         try:
             if how == 'orb_state_P': orb.set_state(sig, orbital_period=P)
             elif how == 'orb_state_n': orb.set_state(sig, orbital_frequency=n)
